@@ -35,6 +35,15 @@ def longRows {ν α} (names : List ν) (X : Arr3 α) : List (Int × Int × ν ×
 def longOf {ν α} (inst time dim : String) (names : List ν) (X : Arr3 α) : Long ν α :=
   ⟨inst, time, dim, longRows names X⟩
 
+/-- rows of the long table holding `X`, as the molten canonical multi-index frame: one row
+`(i, q, name_j, X[i][j][q])` per cell, variable after variable -/
+def longRowsM {ν α : Type} (names : List ν) (X : Arr3 α) : List (Int × Int × ν × α) :=
+  (melt names (miRows X)).map (fun e => (e.1.1.1, e.1.1.2, e.1.2, e.2))
+
+/-- labels of the 2-D table: `name__q` for every variable and time point -/
+def tab2Labels {ν : Type} (ops : NameOps ν) (names : List ν) (t : Nat) : List String :=
+  (names.map (fun nm => (List.range t).map (fun q => ops.sh nm ++ "__" ++ toString q))).flatten
+
 /-- the 2-D table holding `X`: one row per instance, the variables' series one after the other -/
 def tab2Rows {α} (X : Arr3 α) : List (List α) := X.map List.flatten
 
@@ -107,5 +116,87 @@ def hopShape {ν} [DecidableEq ν] (ops : NameOps ν) (c : Nat) : Hop ν → Sha
 def pathShape {ν} [DecidableEq ν] (ops : NameOps ν) (c : Nat) : List (Hop ν) → Shape ν → Option (Shape ν)
   | [], s => some s
   | h :: hs, s => (hopShape ops c h s).bind (pathShape ops c hs)
+
+/-! ### conversion paths over all five containers
+
+A state is the container's shape together with the panel it holds and the panel's dimensions: the
+long table rearranges the variables in sorted-name order, the 2-D table forgets the variable
+boundaries (reading it back gives ONE variable of length `c·t`). -/
+
+inductive Shape5 (ν : Type) where
+  | tri (s : Shape ν)
+  | long (inst time dim : String) (names : List ν)
+  | tab2 (labels : Option (List String))
+  deriving DecidableEq, Repr
+
+structure PState (ν α : Type) where
+  shape : Shape5 ν
+  c : Nat
+  t : Nat
+  X : Arr3 α
+
+def holds5 {ν α : Type} : Shape5 ν → Arr3 α → Rep ν α
+  | .tri s, X => holds s X
+  | .long i t d names, X => .long ⟨i, t, d, longRowsM names X⟩
+  | .tab2 labels, X => .tab2 ⟨labels, tab2Rows X⟩
+
+def Shape5.ok {ν : Type} (c : Nat) : Shape5 ν → Prop
+  | .tri s => s.ok c
+  | .long _ _ _ names => names.length = c ∧ names.Nodup
+  | .tab2 _ => True
+
+/-- a hop inside the triangle nested / 3-D array / multi-index: the panel is untouched -/
+def triHop {ν α : Type} [DecidableEq ν] (ops : NameOps ν) (h : Hop ν) (st : PState ν α) :
+    Option (PState ν α) :=
+  match st.shape with
+  | .tri s => (hopShape ops st.c h s).map (fun s' => { st with shape := .tri s' })
+  | _ => none
+
+/-- the bookkeeping of one converter on a state (`none`: it does not apply / arguments unfit) -/
+def hop5 {ν α : Type} [DecidableEq ν] (ops : NameOps ν) (reserved : ν → Bool) (h : Hop ν)
+    (st : PState ν α) : Option (PState ν α) :=
+  match h with
+  | .nl i tm d =>
+    match st.shape with
+    | .tri (.nested names _) =>
+      if names.any reserved then none
+      else some { st with shape := .long (i.getD "index") (tm.getD "time_index") (d.getD "column") names }
+    | _ => none
+  | .ln i tm d cn =>
+    match st.shape with
+    | .long i' t' d' names =>
+      if i = i' ∧ tm = t' ∧ d = d' ∧ i ≠ tm then
+        match cn with
+        | none => some { st with shape := .tri (.nested (defaultNames ops st.c) false),
+                                 X := sortVarsPanel ops.lt names st.X }
+        | some ns =>
+          if ns.length = st.c ∧ ns.Nodup then
+            some { st with shape := .tri (.nested ns false), X := sortVarsPanel ops.lt names st.X }
+          else none
+      else none
+    | _ => none
+  | .n2 rn =>
+    match st.shape with
+    | .tri (.nested names _) =>
+      some { st with shape := .tab2 (if rn then none else some (tab2Labels ops names st.t)) }
+    | _ => none
+  | .a32 =>
+    match st.shape with
+    | .tri .arr3 => some { st with shape := .tab2 none }
+    | _ => none
+  | .t2n cols k =>
+    match st.shape, k with
+    | .tab2 _, false =>
+      match cols with
+      | none => some ⟨.tri (.nested [ops.zero] false), 1, st.c * st.t, panelOfRows (tab2Rows st.X)⟩
+      | some [name] => some ⟨.tri (.nested [name] false), 1, st.c * st.t, panelOfRows (tab2Rows st.X)⟩
+      | some _ => none
+    | _, _ => none
+  | h => triHop ops h st
+
+def path5 {ν α : Type} [DecidableEq ν] (ops : NameOps ν) (reserved : ν → Bool) :
+    List (Hop ν) → PState ν α → Option (PState ν α)
+  | [], st => some st
+  | h :: hs, st => (hop5 ops reserved h st).bind (path5 ops reserved hs)
 
 end SkVerif.Panel.Spec
